@@ -22,3 +22,26 @@ Proof.
   - apply (sweep_sound _ _ sweep_block_6). rewrite B. exact Ho.
   - apply (sweep_sound _ _ sweep_block_7). rewrite B. exact Ho.
 Qed.
+
+(** The same on the Flocq model (Model/Ticks.v), through the proved equivalence of the two models. *)
+Require Import MS.Base.GoInt MS.Proofs.Ticks_equiv.
+
+Lemma enc_small ipd d : Ticks_equiv.small (enc ipd d).
+Proof.
+  unfold Ticks_equiv.small, enc. pose proof (wrap_range U32 (wrap I64 (f64_trunc (enc_float ipd d)))) as R.
+  unfold in_ity, ity_min, ity_max in R. cbn [ity_signed ity_bits] in R. norm_pows. lia.
+Qed.
+
+Theorem sweep_blocks_flocq o : (exists lo, In lo block_starts /\ lo <= o < lo + block) ->
+  guard_C10 86400 o = true -> dec_offset 86400 (enc 86400 o) = o.
+Proof.
+  intros Hb G.
+  assert (Ho : 0 <= o < 9223372036854775808).
+  { destruct Hb as (lo & Hin & Hr). unfold block_starts, block in *. cbn [In] in Hin.
+    repeat (destruct Hin as [<- | Hin]; [ lia | ]). contradiction. }
+  assert (S : Ticks_equiv.small 86400) by (unfold Ticks_equiv.small; lia).
+  pose proof (enc_pf_eq 86400 o S Ho) as E.
+  pose proof (sweep_blocks o Hb) as P. unfold guard_1sec_pf in P. rewrite E in P.
+  rewrite (dec_offset_pf_eq 86400 (enc 86400 o) S (enc_small _ _)) in P.
+  apply P. exact G.
+Qed.
